@@ -12,6 +12,9 @@
 //!   rerun   re-execute the calls stored in a replay file of a rejected run (--in <replay.json>)
 //!   subjects  list the subject names
 //!
+//! Events: insert / remove / insert_all / build / clear / maintenance (mutators and no-op calls), single reads,
+//! and after every mutating call the batch probes probe (len, its twins, contains), probe_keys (keys,
+//! keys_with_prefix), probe_fsa (accepts, lookup, longest_prefix), probe_ids (lookup_node_id, restore_string).
 //! The harness contains no model of a trie: it calls through, projects and compares for equality.
 use serde_json::{json, Value};
 use std::collections::HashMap;
@@ -1333,6 +1336,22 @@ fn compare(evs: &[Value], st: &[u64], row: &Row) -> Vec<&'static str> {
                 }
                 if e["longest"].as_array().unwrap().iter().enumerate().any(|(i, x)| x[1] != row.lp[i]) {
                     d.push("longest_prefix");
+                }
+            }
+            "probe_ids" => {
+                // universe keys first, then the absent probes; restored = the key itself or None
+                let nu = e["ids"].as_array().map_or(0, |a| a.len().saturating_sub(row.absent.len()));
+                for (i, x) in e["ids"].as_array().unwrap().iter().enumerate() {
+                    let exp = if i < nu { member(i) } else { row.absent[i - nu] };
+                    if x[1].as_bool().unwrap() != exp {
+                        d.push("node_id");
+                        break;
+                    }
+                    let restored = x[2].as_array().unwrap();
+                    if !restored.is_empty() && (!exp || restored[0] != x[0]) {
+                        d.push("restore_string");
+                        break;
+                    }
                 }
             }
             _ => d.push("panic"),
